@@ -193,15 +193,18 @@ async def _scenario(seed: int) -> dict[str, Any]:
     return {"n": n, "events": traces.uniform(events, EVD), "problems": problems, "meta": f"client seed={seed} addresses={['v4' if f == socket.AF_INET else 'v6' for f in fams]} operation={op} abandon={abandon}@{abandon_at} problems={problems}"}
 
 
+def _run_one(seed: int) -> dict[str, Any]:
+    try:
+        return vloop.run(lambda: _scenario(seed), spin_limit=20000)  # type: ignore[no-any-return]
+    except vloop.VirtualDeadlock as exc:
+        return {"n": 1, "events": [dict(EVD, ev="deadlock")], "problems": [str(exc)], "meta": f"client seed={seed} VirtualDeadlock"}
+
+
 def run(chk: Check) -> None:
     quick = chk.tier == "quick"
-    rec: list[dict[str, Any]] = []
-    for i in range(250 if quick else 4000):
-        seed = chk.seed * 40009 + i
-        try:
-            rec.append(vloop.run(lambda: _scenario(seed), spin_limit=20000))
-        except vloop.VirtualDeadlock as exc:
-            rec.append({"n": 1, "events": [dict(EVD, ev="deadlock")], "problems": [str(exc)], "meta": f"client seed={seed} VirtualDeadlock"})
+    from ..common import pmap
+
+    rec: list[dict[str, Any]] = pmap(_run_one, [chk.seed * 40009 + i for i in range(250 if quick else 8000)])
     res = traces.validate("ClientConnect", [{"n": t["n"], "events": t["events"]} for t in rec], cfg_text=TRACE_CFG, parallel=4, chunk=400)
     chk.traces += len(rec)
     chk.states += res.tlc.distinct
